@@ -375,7 +375,7 @@ def run(ctx):
     ctx.log("TLC %s: %d distinct / %d generated states, depth %d, %.0fs" % (cfg, mc.distinct, mc.generated, mc.depth, mc.wall))
 
     # 2. T->I: behaviours of the full spec (reads + writes) from tlc -simulate, replayed on two real dbs
-    num, depth = ctx.pick((250, 24), (6000, 30))
+    num, depth = ctx.pick((250, 24), (3000, 30))
     sim = tlc.run(ctx, "AssertDB", "AssertDB_sim.cfg", simulate={"num": num, "file": True}, depth=depth,
                   seed=ctx.seed, workers=1, timeout=ctx.pick(900, 3000), name="tlc_AssertDB_sim")
     if not sim.ok:
@@ -388,7 +388,7 @@ def run(ctx):
         len(behaviours), stats["real_ops"], len(ev["violations"]), len(ev["mismatches"])))
 
     # 3. I->T: random histories beyond the TLC bounds on the real databases, validated against TraceAssertDB
-    nh, dh = ctx.pick((150, 40), (4000, 50))
+    nh, dh = ctx.pick((150, 40), (2000, 50))
     tviol, tmis, tstats, events = trace_validate(ctx, random_histories(ctx, nh, dh))
     ctx.log("trace-validated %d random histories / %d events; %d violations, %d spec mismatches" % (
         tstats["histories"], tstats["events"], len(tviol), len(tmis)))
